@@ -150,6 +150,8 @@ def childOf (a p : CStr) : Bool :=
     * `stat` / `opendir` (`get_dir`): a trailing "/" or "/." removed; `opendir` also of its directory when the last
       component is a pattern;
     * `open` / `rename-to` / `symlink-to` (`cp`, `rename`, `link` INTO a directory): a direct child that is not "..";
+    * `stat-entry` (a `stat` issued while the directory stream of `get_dir (path, -1)` is open): a direct child,
+      not "..", of the listed directory (the approved path or, for a pattern, its directory part);
     * `fopen` / `rename` / `unlink` (`save_object`): the temporary file `%.250s.tmp`.
     So e.g. `rm (file)` may not unlink the parent directory or a child of an approved directory. -/
 def covers (fn : String) (a p : CStr) : Bool :=
@@ -158,6 +160,7 @@ def covers (fn : String) (a p : CStr) : Bool :=
   ((fn == "stat" || fn == "opendir") && p == listDir a) ||
   (fn == "opendir" && p == parentDir (listDir a)) ||
   ((fn == "open" || fn == "rename-to" || fn == "symlink-to") && childOf a p) ||
+  (fn == "stat-entry" && (childOf (listDir a) p || childOf (parentDir (listDir a)) p)) ||
   ((fn == "fopen" || fn == "rename" || fn == "unlink") && p == a.take 250 ++ str ".tmp")
 
 /-- operation name each efun has to present to the master -/
@@ -166,7 +169,7 @@ def opNames : List (String × List String) := [
   ("mkdir", ["mkdir"]), ("rmdir", ["rmdir"]), ("file_size", ["file_size"]), ("file_length", ["file_size"]),
   ("tail", ["tail"]), ("read_bytes", ["read_bytes"]), ("read_buffer", ["read_bytes"]),
   ("write_bytes", ["write_bytes"]), ("write_buffer", ["write_bytes"]), ("stat", ["stat"]),
-  ("get_dir", ["stat"]), ("rename", ["rename", "file_size"]), ("link", ["rename", "file_size"]),
+  ("get_dir", ["stat"]), ("get_dir1", ["stat"]), ("stat1", ["stat"]), ("rename", ["rename", "file_size"]), ("link", ["rename", "file_size"]),
   ("cp", ["cp"]), ("save_object", ["save_object"]), ("restore_object", ["restore_object"]),
   ("dumpallobj", ["dumpallobj"]), ("dump_prog", ["dumpallobj"]), ("ed", ["ed_start"])]
 
